@@ -1,5 +1,5 @@
 """C11 — Alephium event fields map faithfully to the attested message."""
-import json
+import json, os
 import core
 from vaa_common import monitor_rows
 
@@ -112,11 +112,65 @@ def mon_key(r, m):
         return "wraps-out-of-range"
     return "mon:" + m[:70]
 
+def pipeline_part(ctx):
+    """X2: the conversions where the running watcher applies them - the real fetchEvents / handleEvents / handleObsvRequest against the HTTP
+    simulated node on histories whose events carry boundary and unfit raw fields; every forwarded message re-derived from the
+    ground truth (Go monitors) and compared in full with the composed model (model.AlphPipeline) inside Coq"""
+    import alph_common as A
+    class _P:   # (a name of its own for the overlay and the trace file: this harness runs next to the check's own one, same Go package)
+        pid, tier, seed, say = ctx.pid + "P", ctx.tier, ctx.seed, ctx.say
+    rc, out, trace = core.harness_pkg(_P, "alephium_watcher", "^TestVerifPipe$", timeout=900, race=(ctx.tier == "thorough"),
+                                      env=None if ctx.tier == "thorough" or os.environ.get("VERIF_W_NF") else {"VERIF_W_NF": "100"})
+    rows = [r for r in core.read_jsonl(trace) if r.get("k") == "hist"]
+    if rc != 0 or not rows:
+        cr = A.parse_crash(out)
+        ctx.problem("correspondence", "go harness (alephium watcher, fields family)", ("%s; frames: %s" % (cr[0], "; ".join(cr[1])) if cr else out[-1500:]))
+        if not rows:
+            return
+    hp = [r for r in rows if "harness_panic" in r]
+    if hp:
+        ctx.problem("machinery", "harness panic", hp[0]["harness_panic"])
+    rows = [r for r in rows if "harness_panic" not in r]
+    nmon, classes = A.monitors(ctx, rows, "C11")
+    ctx.cov["pipeline_monitor_findings"] = classes
+    ctx.pipe_stats = (sum(len(r["steps"]) for r in rows), len({(r["id"], i) for r in rows for i, s in enumerate(r["steps"]) if s.get("msgs")}))
+    A.pipe_report(ctx, "cases_C11_pipe", rows, "full")
+
+
+def pipeline_start(ctx):
+    import threading, traceback
+
+    def work():
+        try:
+            pipeline_part(ctx)
+        except Exception as e:
+            traceback.print_exc()
+            ctx.problem("machinery", "pipeline part", repr(e))
+    th = threading.Thread(target=work)
+    th.start()
+    return th
+
+
 def run(ctx):
-    st = core.run_extract(ctx, ["alphconv", "ral_attest"])
+    try:
+        run_main(ctx)
+    finally:
+        th = getattr(ctx, "pipe_thread", None)
+        if th:
+            th.join()
+        if getattr(ctx, "pipe_stats", None):
+            ctx.evaluations += ctx.pipe_stats[0]
+            ctx.distinct += ctx.pipe_stats[1]
+            ctx.rule += ("; in addition step-driven histories of the real watcher (fetchEvents / handleEvents / handleObsvRequest) against the simulated node whose events carry "
+                         "the same boundary / unfit raw values in every field (evaluations = steps; non-trivial = steps that handed at least one message to the signer, each compared in full)")
+
+
+def run_main(ctx):
+    st = core.run_extract(ctx, ["alphconv", "ral_attest", "alph_pipeline"])
     core.coq_prove(ctx, "C11")
     if ctx.tier == "thorough":
         core.coq_thorough_audit(ctx, "C11")
+    ctx.pipe_thread = pipeline_start(ctx)   # X2: the conversions inside the running watcher, next to this check's own harness and comparison
     # the harness builds attestation payloads and events the way the contracts do, from the layout extracted just now
     ral = st.get("ral_attest", {})
     env = {"VERIF_C11_RAL": json.dumps(ral["info"])} if ral.get("ok") else {}
@@ -171,6 +225,7 @@ def run(ctx):
     ctx.cov["traces_validated_against_impl"] = len(cmp_rows)
     ctx.cov["mismatches"] = len(bad)
     ctx.assumptions = ["sdk.Val values carry at most one variant (as produced by the SDK's UnmarshalJSON)",
+                       "the conversions inside the running watcher: histories of the fields family against the HTTP simulated node (block hashes / contract addresses abstract, as in C08 / C09)",
                        "base58.Decode is modelled for ASCII strings; for strings with bytes >= 0x80 the library indexes its table by rune and can panic "
                        "(recorded in coverage, outside the property: ToContractId has no caller in the node)",
                        "math/big SetString(s, 10) and btcutil base58 are modelled by their mathematical meaning (optional sign + digits; positional base 58) and tied by the differential run",
